@@ -1376,3 +1376,76 @@ B('c08-benign-while-true', 'C08', SF,
   '''        for element in sequence:
             val = element
             setattr(pkt, seq_elem_field_name, val)''')
+
+# =========================================================================== C17
+S('c17-delete-not-resetting', 'C17', DS,
+  '''    def __delete__(self, instance):
+        setattr(instance, self.iam_enabled_attr_name, True)''',
+  '''    def __delete__(self, instance):
+        setattr(instance, self.real_field_name, self.func(instance))''', 'R13-typestate')
+S('c17-get-default-false', 'C17', DS,
+  '''        iam_enabled = getattr(instance, self.iam_enabled_attr_name, True)''',
+  '''        iam_enabled = getattr(instance, self.iam_enabled_attr_name, False)''', 'R13-typestate')
+S('c17-set-keeps-enabled', 'C17', DS,
+  '''        setattr(instance, self.iam_enabled_attr_name, False)
+        setattr(instance, self.real_field_name, val)''',
+  '''        setattr(instance, self.real_field_name, val)''', 'R13-typestate')
+S('c17-sync-writes-computed-always', 'C17', DS,
+  '''        val = self.__get__(instance, type(instance))''', '''        val = self.func(instance)''', 'R13-typestate')
+S('c17-template-hooks-after-fields', 'C17', CG,
+  '''def pack_impl(pkt, fragments, **k):
+%(sync_descriptors_code)s
+   k['innermost-pkt-pos'] = fragments.current_offset''',
+  '''def pack_impl(pkt, fragments, **k):
+   k['innermost-pkt-pos'] = fragments.current_offset''',
+  edits=[(CG, '''def pack_impl(pkt, fragments, **k):
+%(sync_descriptors_code)s
+   k['innermost-pkt-pos'] = fragments.current_offset''', '''def pack_impl(pkt, fragments, **k):
+   k['innermost-pkt-pos'] = fragments.current_offset'''),
+         (CG, '''      raise PacketError(False, name, pkt.__class__.__name__, fragments.current_offset, str(e))
+
+   return fragments''', '''      raise PacketError(False, name, pkt.__class__.__name__, fragments.current_offset, str(e))
+
+%(sync_descriptors_code)s
+   return fragments''')], rule='R13-hooks')
+S('c17-generic-hooks-dropped', 'C17', PK,
+  '''        [sync(self) for sync in self.get_sync_before_pack_methods()]
+        k['innermost-pkt-pos'] = fragments.current_offset''',
+  '''        k['innermost-pkt-pos'] = fragments.current_offset''', 'R13-hooks')
+S('c17-flag-slot-not-declared', 'C17', DS,
+  '''        return [self.iam_enabled_attr_name]''', '''        return []''', 'R13-slot-flow')
+S('c17-ctor-writes-hidden-slot', 'C17', PK,
+  '''                    setattr(self, descriptor_name, default_value)''',
+  '''                    setattr(self, field.field_name, default_value)''', 'R13-constructor')
+S('c17-autolength-cached-len', 'C17', DS,
+  '''        return len(getattr(instance, self.length_of))''',
+  '''        return len(getattr(instance, self.length_of) or b'')''', 'R13-typestate')
+S('c17-getters-swapped', 'C17', PB,
+  '''        def get_sync_before_pack_methods(cls):
+            return self.sync_before_pack_methods''',
+  '''        def get_sync_before_pack_methods(cls):
+            return self.sync_after_unpack_methods''', 'R13-hooks')
+S('c17-generated-sync-skips-first', 'C17', CG,
+  '''                                            for i in range(len(sync_methods)))''',
+  '''                                            for i in range(1, len(sync_methods)))''', 'R13-hooks')
+S('c17-descriptor-stays-in-slots', 'C17', PB,
+  '''                self.attrs[field.descriptor_name] = field.descriptor
+                self.slots.remove(field.descriptor_name)''',
+  '''                self.attrs[field.descriptor_name] = field.descriptor''', 'R13-slot-flow')
+S('c17-template-wrong-phase-sync', 'C17', CG,
+  '''                self.generate_unrolled_code_for_descriptor_sync(
+                    sync_for_pack=True
+                ),''',
+  '''                self.generate_unrolled_code_for_descriptor_sync(
+                    sync_for_pack=False
+                ),''', 'R13-hooks')
+B('c17-benign-get-rename', 'C17', DS,
+  '''        iam_enabled = getattr(instance, self.iam_enabled_attr_name, True)
+        if iam_enabled:
+            return self.func(instance)
+        else:
+            real_value = getattr(instance, self.real_field_name)
+            return real_value''',
+  '''        if getattr(instance, self.iam_enabled_attr_name, True):
+            return self.func(instance)
+        return getattr(instance, self.real_field_name)''')
